@@ -6,7 +6,7 @@ namespace SV.Generated.C13Shared
     touches the object, lock held around the guarded block) -/
 def lazyMembers : List (String × String × String × String × Bool × String) := [
   ("specs/openapi/schemas.py", "BaseOpenAPISchema.resolver", "_resolver", "hasattr-guard", true, ""),
-  ("specs/openapi/schemas.py", "BaseOpenAPISchema.rewritten_components", "_rewritten_components", "hasattr-guard", true, ""),
+  ("specs/openapi/schemas.py", "BaseOpenAPISchema.rewritten_components", "_rewritten_components", "hasattr-guard", false, ""),
   ("schemas.py", "BaseSchema.statistic", "statistic", "cached_property", true, ""),
   ("schemas.py", "APIOperation.__post_init__", "label", "hasattr-guard", true, "")
 ]
@@ -18,7 +18,6 @@ def resolverSites : List (String × String × String) := [
   ("_populate_operation_id_cache", "resolve", ""),
   ("_populate_operation_id_cache", "resolution_scope", ""),
   ("in_scope", "push_scope", ""),
-  ("in_scope", "pop_scope", ""),
   ("_resolve_shared_parameters", "resolve_all", ""),
   ("_resolve_operation", "resolve_all", ""),
   ("_resolve_path_item", "resolution_scope", ""),
@@ -28,6 +27,7 @@ def resolverSites : List (String × String × String) := [
   ("get_operation_by_reference", "in_scope", ""),
   ("get_operation_by_reference", "resolve", ""),
   ("_validating_response", "in_scopes", ""),
+  ("in_scope", "pop_scope", ""),
   ("get_response_schema", "resolve_in_scope", ""),
   ("get_response_schema", "resolve_in_scope", ""),
   ("_resolve_until_no_references", "resolve", ""),
